@@ -87,6 +87,10 @@ def cases(draw, tier):
     spec["ignore"] = draw(st.booleans())
     spec["xdtypes"] = draw(st.lists(st.sampled_from(Q.INT_DTYPES), min_size=len(spec["dims"]),
                                     max_size=len(spec["dims"])))
+    # fresh fact / weight objects per request, or one set that serves every request of the case (after having served
+    # a standard deviation first), as a caller computing several statistics of one variable does
+    spec["args"] = draw(st.sampled_from(["fresh", "shared"]))
+    spec["prior_weights"] = draw(Q.weight_specs(N, scalar_ok=False, zero_ok=True))  # for that earlier stddev
     return spec
 
 
@@ -129,14 +133,17 @@ def fact_for(case):
     return arg, days.astype(float), valid
 
 
-def call(case, dense, shape_arg, rma, weights_scale=None):
+def call(case, dense, shape_arg, rma, weights_scale=None, shared=None):
     import numpy
 
     from catii import xcube
 
     N = case["N"]
-    farg, _, _ = fact_for(case)
-    warg, _, _ = Q.weight_arrays(case["weights"], N)
+    if shared is not None:
+        farg, warg = shared  # the caller's one set of fact / weight objects, used for every request
+    else:
+        farg, _, _ = fact_for(case)
+        warg, _, _ = Q.weight_arrays(case["weights"], N)
     if weights_scale is not None and warg is not None:
         if isinstance(warg, tuple):
             warg = (numpy.asarray(warg[0], dtype=float) * weights_scale, warg[1])
@@ -200,10 +207,19 @@ def check(case, rec):
     K = case["fact"]["K"]
     what = "xcube.%s(ignore_missing=%s%s)" % (agg, ignore, ", weighted" if weighted else "")
 
+    shared = None
+    if case.get("args") == "shared":
+        shared = (fact_for(case)[0], Q.weight_arrays(case["weights"], N)[0])
+        rec.note("one set of argument objects for all requests")
+        if agg != "stddev" and case["fact"]["dtype"] != "datetime" and (K is not None or agg not in ("covariance", "corrcoef")):
+            # ... and they have served another statistic before (a weighted standard deviation)
+            with libcall("xcube.stddev on the same fact object beforehand"):
+                prior_w = shared[1] if shared[1] is not None else Q.weight_arrays(case.get("prior_weights"), N)[0]
+                call(dict(case, agg="stddev"), dense, shape_arg, "nan", shared=(shared[0], prior_w))
     with libcall(what + " NaN format"):
-        res_nan = call(case, dense, shape_arg, "nan")
+        res_nan = call(case, dense, shape_arg, "nan", shared=shared)
     with libcall(what + " pair format"):
-        res_tup = call(case, dense, shape_arg, ["tuple", 0])
+        res_tup = call(case, dense, shape_arg, ["tuple", 0], shared=shared)
     nv, nm = Q.normalise(res_nan, "nan", what)
     tv, tm = Q.normalise(res_tup, ["tuple", 0], what)
     matrix = agg in ("covariance", "corrcoef")
